@@ -210,6 +210,15 @@ func execBuild(toks []string) string {
 			return
 		}
 		out = "ser=" + hex.EncodeToString(ser) + " hlens=" + strings.Join(hlens, ",")
+		// SerializeTo into a caller's larger, used scratch buffer writes the same image and
+		// leaves the message as it was
+		scratch := bytes.Repeat([]byte{0xa5}, len(ser)+1+len(ser)%7)
+		hdrBefore := *m.Header
+		if err := m.SerializeTo(scratch); err != nil || !bytes.Equal(scratch[:len(ser)], ser) || *m.Header != hdrBefore {
+			out += " sto=" + hex.EncodeToString(scratch[:len(ser)])
+		} else {
+			out += " sto=same"
+		}
 		// the image actually written: WriteTo serialises into a pooled buffer that an earlier
 		// write has left full of other bytes
 		dirtyWriterPool()
@@ -241,10 +250,11 @@ func execBuild(toks []string) string {
 }
 
 // reassemble builds the same AVP in another legal way:
-//   g  a grouped AVP is wrapped with NewAVP while its group is still empty and filled afterwards
-//      with GroupedAVP.AddAVP (at every depth)
-//   v  a vendor id is passed with flags that lack the V bit (NewAVP sets it)
-//   d  the AVP is created around a value of another size and its Data field assigned afterwards
+//
+//	g  a grouped AVP is wrapped with NewAVP while its group is still empty and filled afterwards
+//	   with GroupedAVP.AddAVP (at every depth)
+//	v  a vendor id is passed with flags that lack the V bit (NewAVP sets it)
+//	d  the AVP is created around a value of another size and its Data field assigned afterwards
 func reassemble(a *diam.AVP, mode string) *diam.AVP {
 	fl := a.Flags
 	if strings.Contains(mode, "v") && a.VendorID != 0 {
@@ -652,8 +662,15 @@ func genAVP(r *RNG, v *dictView, app uint32, depth int) *diam.AVP {
 		vendor := uint32(0)
 		if r.Chance(50) {
 			vendor = 99000 + uint32(r.Intn(5))
+			if r.Chance(25) { // the edges of the 32-bit vendor id space
+				vendor = []uint32{1, 0x7fffffff, 0x80000000, 0xfffffffe, 0xffffffff}[r.Intn(5)]
+			}
 		}
-		return diam.NewAVP(code, flags, vendor, datatype.Unknown(r.Bytes(genLen(r))))
+		if vendor != 0 {
+			flags |= 0x80
+		}
+		// a literal, not NewAVP: the line must say what is asked for, not what the library made of it
+		return &diam.AVP{Code: code, Flags: flags, VendorID: vendor, Data: datatype.Unknown(r.Bytes(genLen(r)))}
 	case k < 12: // known code under an undefined vendor: opaque as well
 		c := cands[r.Intn(len(cands))]
 		return diam.NewAVP(c.code, flags, 99000+uint32(r.Intn(5)), datatype.Unknown(r.Bytes(genLen(r))))
